@@ -117,6 +117,10 @@ func (r *run) wrap(q *request, c *clientRec, body ...nfsv4.NfsArgop4) ([]nfsv4.N
 // noteReply updates the lease part of the client view after a reply.
 func (r *run) noteReply(q *request, renews bool) {
 	c := q.c
+	if r.v40() && q.leaseOf != nil {
+		// NFSv4.0 requests carry no client: a state ID renews the lease of the client it belongs to
+		c = q.leaseOf
+	}
 	if c == nil {
 		return
 	}
@@ -598,6 +602,9 @@ func (r *run) opStateOp(kind string, x, acc int, o opts) bool {
 		return false
 	}
 	q := &request{id: -1, kind: kind, c: c, noRenew: o.os != 0}
+	if s != nil {
+		q.leaseOf = s.c
+	}
 	msid = r.resolveFor(c, s, msid)
 	var put []nfsv4.NfsArgop4
 	fh := 0
@@ -643,6 +650,14 @@ func (r *run) opStateOp(kind string, x, acc int, o opts) bool {
 		mline = fmt.Sprintf("close %s %d %d %d %d", tag, msid, mseq, fh, oseq)
 	case "free":
 		mline = fmt.Sprintf("freeStateid %s %d %d", tag, msid, mseq)
+	}
+	// the state the request really denotes: NFSv4.1 state IDs are per-client counters, so
+	// through another client's session the ID denotes that client's own state (if any)
+	if !r.v40() && s != nil && c != s.c {
+		s = r.states[r.stateKey(c, s.other)]
+		if s != nil && !s.lock {
+			okey = [2]int{s.c.modelID, s.key}
+		}
 	}
 	q.finish = func(q *request, final string) {
 		st, _ := lastResult(q.res)
@@ -721,6 +736,9 @@ func (r *run) opLock(id, x, lo, ty int, off, length uint64, fresh bool, o opts) 
 		return false
 	}
 	q := &request{id: -1, kind: "lock", c: c, noRenew: o.os != 0 || o.ls != 0}
+	if s != nil {
+		q.leaseOf = s.c
+	}
 	msid = r.resolveFor(c, s, msid)
 	put, fh, ok := r.fhOverride(o, r.leafFH[leaf], fileFH(leaf))
 	if !ok {
@@ -800,6 +818,11 @@ func (r *run) opLock(id, x, lo, ty int, off, length uint64, fresh bool, o opts) 
 					if fresh {
 						r.byReq[id] = ls
 					}
+					for _, t := range r.states {
+						if t != ls && t.lock && !t.closed && t.c == ls.c && t.key == ls.key && t.leaf == ls.leaf && t.parent != ls.parent {
+							r.sharedLO = true
+						}
+					}
 					real = fmt.Sprintf("st=0 sid=%d.%d", ls.sid, res.Resok4.LockStateid.Seqid)
 					if !cached {
 						// the owner of an existing lock state is the owner it was created for
@@ -844,6 +867,9 @@ func (r *run) opLocku(x int, off, length uint64, o opts) bool {
 		return false
 	}
 	q := &request{id: -1, kind: "locku", c: c, noRenew: o.ls != 0}
+	if s != nil {
+		q.leaseOf = s.c
+	}
 	msid = r.resolveFor(c, s, msid)
 	put, fh, ok := r.fhOverride(o, r.leafFH[leaf], fileFH(leaf))
 	if !ok {
@@ -991,6 +1017,9 @@ func (r *run) opIO(id int, kind string, x, f int, o opts) bool {
 		return false
 	}
 	q := &request{id: id, kind: "io", c: c, ioLeaf: f, ioState: s}
+	if s != nil {
+		q.leaseOf = s.c
+	}
 	msid = r.resolveFor(c, s, msid)
 	var main nfsv4.NfsArgop4
 	k := 0
@@ -1034,7 +1063,7 @@ func (r *run) opIO(id int, kind string, x, f int, o opts) bool {
 			}
 		}
 		if reached && st == stStale && x < 0 {
-			r.phantomOpen = f
+			r.phantomOpen = q.ioLeaf
 		}
 		r.monitorIO(q, kind, st, reached)
 		r.compare(final, fmt.Sprintf("st=%d", st))
